@@ -93,6 +93,9 @@ class Session:
         hsrc = os.path.join(self.scratch, "harness")
         shutil.copytree(HARNESS, hsrc)
         shutil.copyfile(os.path.join(REPO, "go.sum"), os.path.join(hsrc, "go.sum"))
+        if REPO != "/repo":
+            gm = open(os.path.join(hsrc, "go.mod")).read().replace("=> /repo", "=> " + REPO)
+            open(os.path.join(hsrc, "go.mod"), "w").write(gm)
         sh(["go", "build", "-o", self.vdrive, "./cmd/vdrive"], cwd=hsrc, env=env, timeout=600)
         if need_inproc:
             rc, out = sh(["go", "build", "-tags", "verif", "-o", self.vinproc, "./cmd/vinproc"], cwd=hsrc, env=env,
@@ -156,11 +159,18 @@ class Session:
             shutil.copyfile(src, os.path.join(d, name))
         return d
 
-    def model(self, module, cfg=None, workers=8, timeout=1800, files=(), heap=None, extra=None, expect_violation=None):
+    def model(self, module, cfg=None, workers=8, timeout=1800, files=(), heap=None, extra=None, expect_violation=None,
+              constants=None, collect=()):
         """Exhaustive TLC run of a mechanism / theory model. A failure here means the specification is
         inconsistent (machinery problem), never a verdict about crd."""
         cfg = cfg or module + ".cfg"
         d = self.spec_dir(files)
+        if constants:
+            # override CONSTANT values of the cfg for this tier (e.g. {"L": 12})
+            txt = open(os.path.join(d, cfg)).read()
+            for k, v in constants.items():
+                txt = re.sub(r"(\b%s\s*=\s*)\S+" % re.escape(k), lambda m: m.group(1) + str(v), txt)
+            open(os.path.join(d, cfg), "w").write(txt)
         r = self.tlc(module, cfg, d, workers=workers, timeout=timeout, heap=heap, extra=extra)
         entry = {"module": module, "cfg": cfg, "states": r.get("distinct", 0), "generated": r.get("generated", 0),
                  "wall_s": r["wall_s"]}
@@ -175,6 +185,13 @@ class Session:
         self.transitions += r.get("generated", 0)
         self.models.append(entry)
         log("model %s/%s: %d distinct states, %.1fs" % (module, cfg, r.get("distinct", 0), r["wall_s"]))
+        if constants:
+            entry["constants"] = constants
+        r["collected"] = {}
+        for name in collect:
+            dst = os.path.join(self.scratch, "%s-%s" % (module, name))
+            shutil.copyfile(os.path.join(d, name), dst)
+            r["collected"][name] = dst
         shutil.rmtree(d, ignore_errors=True)
         return r
 
@@ -238,6 +255,8 @@ class Session:
                 rec = json.loads(part[idx])
                 if idx < len(cases) and cases[idx]:
                     rec["case"] = json.loads(cases[idx])
+                if str(r.get("invariant", "")).startswith("Driver"):
+                    raise Undecided("bad test input (generator claim not re-derived by the spec): %s" % json.dumps(rec)[:800])
                 kf = match_known(self.prop, rec, known)
                 if kf is None:
                     return ("violation", Violation(self, meta, module, r.get("invariant", "?"), rec, r), hits, st, tr)
@@ -268,7 +287,8 @@ class Session:
 
     # ---------------------------------------------------------------- evidence
     def evidence(self, level, violations, assumptions, explanation=None):
-        os.makedirs(os.path.join(VERIF, "evidence"), exist_ok=True)
+        evdir = os.environ.get("VERIF_EVIDENCE_DIR") or os.path.join(VERIF, "evidence")
+        os.makedirs(evdir, exist_ok=True)
         samples = []
         evaluations = 0
         distinct = 0
@@ -306,7 +326,7 @@ class Session:
             "wall_s": round(time.time() - self.t0, 2),
             "violations": violations,
         }
-        path = os.path.join(VERIF, "evidence", self.prop + ".json")
+        path = os.path.join(evdir, self.prop + ".json")
         tmp = path + ".tmp"
         with open(tmp, "w") as f:
             json.dump(ev, f, indent=1, ensure_ascii=True)
@@ -318,11 +338,12 @@ class Violation(Exception):
         self.sess, self.meta, self.module, self.invariant, self.rec, self.tlcres = sess, meta, module, invariant, rec, tlc
 
     def write_replay(self):
-        os.makedirs(os.path.join(VERIF, "replays"), exist_ok=True)
+        rdir = os.environ.get("VERIF_REPLAY_DIR") or os.path.join(VERIF, "replays")
+        os.makedirs(rdir, exist_ok=True)
         body = {"property": self.sess.prop, "driver": self.meta["driver"], "trace_spec": self.module,
                 "invariant": self.invariant, "tier": self.sess.tier, "seed": self.sess.seed, "record": self.rec}
         h = hashlib.sha256(json.dumps(self.rec.get("case", self.rec), sort_keys=True).encode()).hexdigest()[:12]
-        path = os.path.join(VERIF, "replays", "%s-%s.json" % (self.sess.prop, h))
+        path = os.path.join(rdir, "%s-%s.json" % (self.sess.prop, h))
         with open(path, "w") as f:
             json.dump(body, f, indent=1)
         return path
